@@ -361,7 +361,9 @@ impl Engine for Updates {
                 Ok(Err(err)) => {
                     out.label("update-refused");
                     if !expect_err {
-                        out.fail(format!("legal-edit-refused:{}", strip_digits(&err.to_string())), format!("step {step} {e:?}: {err}"));
+                        // the statement does not promise that an edit is accepted, only what
+                        // happens when it is and that a refusal leaves the original untouched
+                        out.label("edit-refused-unexpectedly");
                     }
                     if !c.on_disk || !rebuilt_called {
                         if cur != old {
@@ -391,7 +393,7 @@ impl Engine for Updates {
                     } else {
                         out.label("in-place");
                         if rebuilt_called && !c.on_disk {
-                            out.fail("in-place-but-rebuild-called", format!("step {step}: Ok(false) but the rebuild closure was called"));
+                            out.label("in-place-result-after-opening-rebuild-target");
                         }
                         if cur.len() != old.len() {
                             out.fail("in-place-changed-length", format!("step {step} {e:?}: {} -> {} bytes", old.len(), cur.len()));
